@@ -708,7 +708,8 @@ int main(int argc, char** argv) {
         auto compare = [&](const std::string& vkey, const std::string& key, double got, double want, const std::string& ctx) {
             ++comparisons;
             const double e = vh::reldiff(got, want);
-            const bool ok = std::fabs(got - want) <= TOL * std::max(std::fabs(got), std::fabs(want)) + 1e-12;   // 1e-12 absolute: values are O(1e-3..1e12) in deck units
+            const bool ok = std::isfinite(got) && std::isfinite(want) && std::fabs(got - want) <= TOL * std::max(std::fabs(got), std::fabs(want)) + 1e-12;   // a non-finite value never passes (inf <= TOL*inf would)
+            //    // 1e-12 absolute: values are O(1e-3..1e12) in deck units
             if (ok) { if (std::isfinite(e) && std::fabs(got - want) > 1e-12) maxErr = std::max(maxErr, e); return; }
             if (!firstBad.count(vkey)) {
                 std::ostringstream o; o.precision(17);
